@@ -4,7 +4,26 @@ import json, os
 V = os.path.dirname(os.path.dirname(os.path.abspath(__file__)))
 PROPS = [json.loads(l)["id"] for l in open(os.path.join(V, "properties.jsonl"))]
 
+TB = "Trusts rustc's MIR/HIR construction, type check and Instance::try_resolve, the gdfacts dump, and that std/dependency functions outside the may-panic table are total. "
 CHECKS = {
+    "C01": ("panic-site ledger over MIR (every Assert terminator and may-panic call) discharged by abstract interpretation (intervals + zone facts + inferred callee contracts + reviewed rows with re-verified anchors); loop-exit classification; recursion check",
+            "Enumerates every potential panic site (arithmetic overflow, bounds, division, unwrap/expect, slicing, explicit panic) and every loop in every hand-written or local-macro body of the library from the compiler's MIR and requires each to be discharged by a machine-checked argument; an undischarged or newly introduced site is a violation naming the function and operands. This decides the totality clause for all reply contents at once (the analysis abstracts over reply bytes), which no finite test set can.",
+            TB + "Necessary-condition check for 'returns once silent' (loop classes), not a termination proof; timing is C12; allocation aborts are C13.", "DESIGN 4 C01, 3 E1/E2"),
+    "C11": ("typed-HIR shape rules on every GatherToggle match + who-may-call on section request functions + value analysis of the app-id guard",
+            "Decides that each section request can only be issued from the Try/Enforce arm of its own toggle with the prescribed error handling (.ok() vs ?), lands in its own response field, and that BadGame is reachable only under check_app_id && !is_specified_id with is_specified_id set only under app-id equality.",
+            TB + "Does not decide wire-level absence of requests (C09/C10 cover the send sites).", "DESIGN 4 C11"),
+    "C12": ("must-pass-through (dominance) on socket constructors, who-may-call on raw socket APIs, argument provenance of timeout settings, canonical dataflow renderings of the timeout wiring",
+            "Decides the wiring half of the property: every socket is created through code paths that apply the caller's (or non-zero default) timeouts with read->read and write->write, TCP uses connect_timeout, the HTTP agent gets the three timeouts, the UDP bind address follows the target's family, the URL host is never a bare IpAddr, UDP receive returns exactly buf[..n].",
+            TB + "No timing claim is decided (attempts x timeout, scheduling slack, kernel behaviour): that clause needs real sockets and is outside this family.", "DESIGN 4 C12"),
+    "C15": ("typed-HIR field-mapping extraction over every CommonResponse/CommonPlayer impl enumerated from the trait-impl index, compared with a same-name-or-reviewed-synonym rule; default as_json wiring",
+            "For all impls (enumerated, so a new impl is checked automatically) every accessor must return the same-named (or reviewed synonym) field of its own type, as_json must wire each JSON field to the same-named accessor, as_original must wrap self.",
+            TB + "Value equality at run time and serde's rendering are not decided.", "DESIGN 4 C15"),
+    "C17": ("inductive type-invariant proof (cursor <= data.len()) over all constructors and writers of the private field using the abstract interpreter, per-impl decoder contract, ghost-variable proof of unchanged-on-error, sibling agreement of BufferRead impls, VarInt loop-bound rules, panic-site ledger for the reader/codecs",
+            "Proves by induction over the closed set of functions able to write Buffer.cursor that the position never leaves the packet, that failed reads leave it unchanged, that read advances by size_of::<T>(), that each BufferRead impl uses its own width/byte order, that VarInt decoding reads at most 5 bytes and rejects over-long encodings; all slice/arith sites in the reader and codecs are discharged.",
+            TB + "VarInt/string round-trip equality over all values and the reference-model conformance over operation sequences are value-level and not decided.", "DESIGN 4 C17"),
+    "C18": ("who-may-construct enumeration of every TimeoutSettings aggregate (including derive-generated bodies), dominance of is_zero rejections, inferred contract of the CLI value parser, panic-site ledger for settings-dependent sites, compile-fail witnesses for the closed constructor set",
+            "Enumerates all construction sites of TimeoutSettings in all bodies, requires each to be validated (constructor checks / non-zero constants / value parser proven to reject 0), discharges the settings-dependent panic sites, and (thorough) pins with compile_fail,E0451 that no other construction path exists outside the crate. The derive(Deserialize) path is a recorded known finding.",
+            TB + "OS behaviour for extreme durations is not decided.", "DESIGN 4 C18"),
     # id: (technique, level text, level note, design_ref)
     "C10": ("call-graph coverage (who-may-call), argument provenance and loop-shape rules over resolved MIR",
             "Decides the structural necessary conditions of the retry contract: every send/receive site is inside a unit handed to "
